@@ -369,3 +369,64 @@ theorem session_namesOK (H : SList → Nat) (B fuel : Nat) (hfuel : B < fuel + 1
   exact ⟨fun x y s t hs ht => h.dist x y s t (by rwa [← hfiles x]) (by rwa [← hfiles y]), fun x => by rw [hfiles x]; exact h.loc x⟩
 
 end Sedpack.Tree
+
+namespace Sedpack.Tree
+
+theorem nodup_of_map {α β} (f : α → β) : ∀ (l : List α), (l.map f).Nodup → l.Nodup := by
+  intro l
+  induction l with
+  | nil => intro _; simp
+  | cons a as ih =>
+    intro h
+    simp only [List.map_cons, List.nodup_cons] at h
+    simp only [List.nodup_cons]
+    exact ⟨fun ha => h.1 (List.mem_map.mpr ⟨a, ha, rfl⟩), ih h.2⟩
+
+/-- the shards a session closed for split `s` (in all its directories), in session order -/
+def newFor (se : Session) (s : Nat) : List Shard := (se.filter (fun w => w.1.headD 0 = s)).flatMap (·.2)
+
+theorem mem_newFor {se : Session} {s : Nat} {sh : Shard} : sh ∈ newFor se s ↔ ∃ w ∈ se, w.1.headD 0 = s ∧ sh ∈ w.2 := by
+  simp only [newFor, List.mem_flatMap, List.mem_filter, decide_eq_true_eq]
+  constructor
+  · rintro ⟨w, ⟨hw, hws⟩, hs⟩; exact ⟨w, hw, hws, hs⟩
+  · rintro ⟨w, hw, hws, hs⟩; exact ⟨w, ⟨hw, hws⟩, hs⟩
+
+theorem newFor_sublist (se : Session) (s : Nat) : (newFor se s).Sublist (se.flatMap (·.2)) := by
+  induction se with
+  | nil => simp [newFor]
+  | cons w ws ih =>
+    simp only [newFor, List.filter_cons, List.flatMap_cons]
+    split
+    · simp only [List.flatMap_cons]
+      exact List.Sublist.append (List.Sublist.refl _) (by simpa [newFor] using ih)
+    · exact List.Sublist.trans (by simpa [newFor] using ih) (List.sublist_append_right _ _)
+
+/-- **A session adds exactly what it wrote, as a multiset** (each shard once): with freshly named shards, what the walk
+enumerates for split `s` afterwards is a permutation of what it enumerated before followed by the session's shards for `s`. -/
+theorem session_perm (H : SList → Nat) (B fuel : Nat) (hfuel : B < fuel + 1) (hB : 1 ≤ B) (ds : DS) (se : Session)
+    (hse : ∀ w ∈ se, w.1 ≠ [] ∧ w.1.length ≤ B) (hg : Good H B ds) (hl : Linked ds.fs) (hn : NamesOK ds.fs) (hf : FreshSession ds.fs se)
+    (s : Nat) :
+    (shardsOf fuel (session H fuel ds se).fs [s]).Perm (shardsOf fuel ds.fs [s] ++ newFor se s) := by
+  have hgood := (session_good H B fuel hfuel hB ds se hse hg).1
+  have hn' := session_namesOK H B fuel hfuel hB ds se hse hg hn hf
+  have nd1 : (shardsOf fuel (session H fuel ds se).fs [s]).Nodup :=
+    nodup_of_map (·.file) _ (shardsOf_names_nodup hgood.wf fuel [s] hn'.dist hn'.loc)
+  have nd0 : (shardsOf fuel ds.fs [s]).Nodup := nodup_of_map (·.file) _ (shardsOf_names_nodup hg.wf fuel [s] hn.dist hn.loc)
+  have ndn : (newFor se s).Nodup := (newFor_sublist se s).nodup (nodup_of_map (·.file) _ hf.distinct)
+  have nd2 : (shardsOf fuel ds.fs [s] ++ newFor se s).Nodup := by
+    rw [List.nodup_append]
+    refine ⟨nd0, ndn, ?_⟩
+    intro a ha b hb hab
+    subst hab
+    obtain ⟨w, hw, _, haw⟩ := mem_newFor.mp hb
+    obtain ⟨x, _, hax⟩ := (mem_shardsOf B fuel ds.fs [s] hg.wf hg.depth (by simpa using hB) (by simp; omega) a).mp ha
+    exact hf.unused w hw a haw x a hax rfl
+  rw [List.perm_ext_iff_of_nodup nd1 nd2]
+  intro sh
+  rw [session_adds_exactly H B fuel hfuel hB ds se hse hg hl s sh, List.mem_append, mem_newFor]
+
+theorem perm_flatMap {α β} (f : α → List β) {l₁ l₂ : List α} (h : l₁.Perm l₂) : (l₁.flatMap f).Perm (l₂.flatMap f) := by
+  rw [List.flatMap_def, List.flatMap_def]
+  exact (h.map f).flatten
+
+end Sedpack.Tree
